@@ -56,6 +56,13 @@
 //	          client name (site name; x.w.test and .w.test for the wildcard site; the A-label for the IDN
 //	          site) and for zz.test> r=<for each of those SNIs, each client name as Host: in:<k>|in:*|421>
 //
+//	cf2 <subs>
+//	    the Caddyfile `a.test:443, b.test:8443 { tls { client_auth { <subs> } } respond "S0" }` — ONE
+//	    site block paired with TWO servers — through the real adapter and App.Provision (subs as in cf,
+//	    `.` = empty block). Per server (A = :443 with its name a.test, B = :8443 with b.test):
+//	  answer: err:adapt | err:provision | A strict=<0|1> a=<ClientAuth of the policy chosen for the
+//	          server's own name><… for the other name> r=<own name as SNI and Host: in:0|in:*|421> B …
+//
 //	e2e <srv> <hs> <sniHex> <hostHex>
 //	    a REAL crypto/tls handshake (client without certificate, over an in-memory pipe) against the
 //	    TLSConfig of a provisioned server with policies [sni secret.test + client auth: srv 0 = mode
@@ -840,6 +847,8 @@ func (p *prop) Run(line string) core.Outcome {
 		o = p.runPol(f)
 	case len(f) == 5 && f[0] == "enf":
 		o = p.runEnf(f)
+	case len(f) == 2 && f[0] == "cf2":
+		o = p.runCF2(f)
 	case len(f) == 3 && f[0] == "cf":
 		o = p.runCF(f)
 	case len(f) == 2 && f[0] == "ca":
@@ -1847,5 +1856,103 @@ func (p *prop) runCF(f []string) core.Outcome {
 		tag("cf:some-policy-asks-for-cert")
 	}
 	o.Impl = "strict=" + b01(strict) + " a=" + auths.String() + " r=" + strings.Join(served, ",")
+	return o
+}
+
+// ---------------------------------------------------------------- one site block, two servers
+
+const clsAliasing = "multi-port-block-policy-aliasing"
+
+func (p *prop) runCF2(f []string) core.Outcome {
+	subs := f[1]
+	if subs == "" {
+		return core.Outcome{Impl: "bad-op"}
+	}
+	if subs != "." {
+		for k := 0; k < len(subs); k++ {
+			if _, ok := p.cfSub(subs[k]); !ok {
+				return core.Outcome{Impl: "bad-op"}
+			}
+		}
+	}
+	var o core.Outcome
+	tag := func(t string) { o.Tags = append(o.Tags, t) }
+	fail := func(class, what string) {
+		o.Failures = append(o.Failures, core.Failure{Class: class, What: what})
+	}
+	tag("cf2")
+	var sb strings.Builder
+	sb.WriteString("{\n\tauto_https off\n}\na.test:443, b.test:8443 {\n\ttls {\n\t\tclient_auth {\n")
+	if subs != "." {
+		for j := 0; j < len(subs); j++ {
+			line, _ := p.cfSub(subs[j])
+			sb.WriteString("\t\t\t" + line + "\n")
+		}
+	}
+	sb.WriteString("\t\t}\n\t}\n\trespond \"S0\"\n}\n")
+	adapter := caddyconfig.GetAdapter("caddyfile")
+	cfgJSON, _, err := adapter.Adapt([]byte(sb.String()), map[string]any{"filename": "Caddyfile"})
+	if err != nil {
+		o.Impl = "err:adapt"
+		return o
+	}
+	var top struct {
+		Apps map[string]json.RawMessage `json:"apps"`
+	}
+	if err := json.Unmarshal(cfgJSON, &top); err != nil || top.Apps["http"] == nil {
+		return core.Outcome{Impl: "harness-adapted-json-unreadable"}
+	}
+	v, err := p.ctx.LoadModuleByID("http", top.Apps["http"])
+	if err != nil {
+		o.Impl = "err:provision"
+		return o
+	}
+	app := v.(*caddyhttp.App)
+	var out []string
+	for _, sv := range []struct{ label, listen, own, other string }{{"A", ":443", "a.test", "b.test"}, {"B", ":8443", "b.test", "a.test"}} {
+		var srv *caddyhttp.Server
+		for _, s := range app.Servers {
+			if len(s.Listen) == 1 && s.Listen[0] == sv.listen {
+				srv = s
+			}
+		}
+		if srv == nil {
+			return core.Outcome{Impl: "no-server-for-" + sv.listen}
+		}
+		strict := srv.StrictSNIHost != nil && *srv.StrictSNIHost
+		tlsCfg := srv.TLSConnPolicies.TLSConfig(p.ctx)
+		auth := func(sni string) (string, tls.ClientAuthType) {
+			cfg, err := tlsCfg.GetConfigForClient(mkHello(sni, 0, 6))
+			if err != nil || cfg == nil {
+				return "-", tls.NoClientCert
+			}
+			return strconv.Itoa(int(cfg.ClientAuth)), cfg.ClientAuth
+		}
+		aOwn, tOwn := auth(sv.own)
+		aOther, _ := auth(sv.other)
+		r := httptest.NewRequest("GET", "https://placeholder.invalid/", nil)
+		r.Host = sv.own + sv.listen
+		r.TLS = &tls.ConnectionState{ServerName: sv.own}
+		rec := httptest.NewRecorder()
+		srv.ServeHTTP(rec, r)
+		var res string
+		switch body := rec.Body.String(); {
+		case rec.Code == 200 && body == "S0":
+			res = "in:0"
+		case rec.Code == 200 && body == "":
+			res = "in:*"
+		case rec.Code == http.StatusMisdirectedRequest:
+			res = "421"
+		default:
+			res = "s" + strconv.Itoa(rec.Code)
+		}
+		out = append(out, fmt.Sprintf("%s strict=%s a=%s%s r=%s", sv.label, b01(strict), aOwn, aOther, res))
+		// ---- the property through the Caddyfile: the block demands client certificates, so the
+		// connection on which its site is reached was asked for one
+		if subs != "." && res == "in:0" && tOwn == tls.NoClientCert {
+			fail(clsAliasing, fmt.Sprintf("Caddyfile:\n%s\nserver %s: SNI %q gets a connection policy that asks for no client certificate, yet the request reaches the site, whose block has client_auth", sb.String(), sv.listen, sv.own))
+		}
+	}
+	o.Impl = strings.Join(out, " ")
 	return o
 }
